@@ -47,7 +47,7 @@ def gen_cases(ctx):
                             data, _ = ML.serialise_catalog(cat, cs, L, rng)
                             cases.append((data, dict(cat=cat, cs=cs, want_cs='UTF-8', layout=L, origin='layout-switches')))
     # 2. random catalogs in every ASCII-compatible charset of data/encodings, random layouts
-    per = 12 if ctx.quick() else 500
+    per = 60 if ctx.quick() else 1500
     for name in names:
         for k in range(per):
             header = rng.choice(['std', 'std', 'std', 'lower', 'late', 'none', 'nocharset'])
@@ -62,7 +62,7 @@ def gen_cases(ctx):
                 want = 'ASCII' if cat else None
             cases.append((data, dict(cat=cat, cs=tcs, want_cs=want, layout=L, origin='random/' + header)))
     # 3. without contexts (the part of the property that holds on the code as it is), bigger catalogs
-    for k in range(300 if ctx.quick() else 20000):
+    for k in range(3000 if ctx.quick() else 60000):
         name = rng.choice(names)
         cat, tcs = ML.gen_catalog(rng, name, header='std', nmax=12, contexts=False)
         L = ML.rand_layout(rng)
